@@ -866,31 +866,48 @@ func c20R4(c *Ctx) {
 	}
 	produced := map[string][]string{}
 	classOf := map[*ssa.Function]string{}
-	for _, f := range builders {
-		fn := FnName(f)
-		n := stTemplateOf(f, 0)
-		if unk := stUnknowns(n); len(unk) > 0 {
-			c.Undecided(R4, fn+"|template", f.Pos(), "cannot evaluate the string built here: "+strings.Join(unk, "; ")+"  (partial: "+n.render()+")")
-			continue
-		}
-		got := n.render()
-		matched := ""
+	classAt := map[ssa.CallInstruction][]string{} // endpoints a parameterised builder is instantiated to at a call site
+	match := func(got string) string {
 		for _, e := range c20Endpoints {
 			for _, t := range e.tmpl {
 				if t == got {
-					matched = e.name
+					return e.name
 				}
 			}
 		}
+		return ""
+	}
+	for _, f := range builders {
+		fn := FnName(f)
+		n := stTemplateOf(f, 0)
+		unk := stUnknowns(n)
+		got := n.render()
+		matched := ""
+		if len(unk) == 0 {
+			matched = match(got)
+		}
 		if matched == "" {
-			// a parameterised helper (e.g. base + "/" + kind + "/" + reference) is judged
+			// a parameterised helper (base + "/" + kind + "/" + reference, a variadic join …) is judged
 			// through the builders that instantiate it, provided nothing else can reach it
 			if users, internal := c20OnlyUsedBy(c, f, builders); internal && len(users) > 0 {
 				classOf[f] = "helper"
 				c.Exists(R4, fn+"|template", f.Pos(), true, got+"  =  helper, only instantiated by "+strings.Join(users, ", ")+" (evaluated there)")
 				continue
 			}
-			c.Violation(R4, fn+"|template", f.Pos(), "builds "+got+" which is none of the distribution-spec endpoint templates (a reference part outside its slot, an extra segment or query, or a wrong scheme/host)")
+			// … or through its call sites, when each passes constants for the free string parameters
+			if ok, why := c20Instantiate(c, f, builders, match, classAt, produced); ok {
+				classOf[f] = "parameterised"
+				c.OK(R4, fn+"|template", f.Pos(), got+"  =  parameterised builder; every call site instantiates it to an endpoint: "+why)
+				continue
+			} else if len(unk) == 0 || why != "" {
+				if len(unk) > 0 {
+					c.Undecided(R4, fn+"|template", f.Pos(), "cannot evaluate the string built here: "+strings.Join(unk, "; ")+"  (partial: "+got+")")
+				} else {
+					c.Violation(R4, fn+"|template", f.Pos(), "builds "+got+" which is none of the distribution-spec endpoint templates (a reference part outside its slot, an extra segment or query, or a wrong scheme/host)"+ifelse(why != "", "; "+why, ""))
+				}
+				continue
+			}
+			c.Undecided(R4, fn+"|template", f.Pos(), "cannot evaluate the string built here: "+strings.Join(unk, "; ")+"  (partial: "+got+")")
 			continue
 		}
 		classOf[f] = matched
@@ -943,8 +960,14 @@ func c20R4(c *Ctx) {
 			} else if f.Parent() != nil && f.Parent().Signature.Recv() != nil {
 				recvT = f.Parent().Signature.Recv().Type()
 			}
-			kind := classOf[g]
-			if recvT != nil {
+			kinds := []string{classOf[g]}
+			if at, ok := classAt[call]; ok {
+				kinds = at
+			}
+			for _, kind := range kinds {
+				if recvT == nil {
+					continue
+				}
 				if types.Identical(recvT, blobT) && !strings.Contains(kind, "/blobs/") {
 					okStore, whyStore = false, FnName(f)+" (blob store) builds its URL with "+FnName(g)+" = "+kind
 				}
@@ -960,6 +983,83 @@ func c20R4(c *Ctx) {
 	}
 	c.Check(R4, "callers|scheme-by-PlainHTTP", 0, okPlain, ifelse(okPlain, fmt.Sprintf("all %d builder calls pass the PlainHTTP option as the scheme flag", nCalls), whyPlain))
 	c.Check(R4, "callers|store-uses-own-endpoint", 0, okStore, ifelse(okStore, "methods of the blob store use only /blobs/ endpoints, methods of the manifest store only /manifests/ endpoints", whyStore))
+}
+
+// c20Instantiate judges a parameterised builder through its call sites: every
+// use is a static call; calls from other builders are evaluated there; every
+// other call passes, for each string parameter that the template leaves open,
+// values that are all constants — each instantiation must be an endpoint.
+func c20Instantiate(c *Ctx, f *ssa.Function, builders []*ssa.Function, match func(string) string,
+	classAt map[ssa.CallInstruction][]string, produced map[string][]string) (bool, string) {
+	isBuilder := map[*ssa.Function]bool{}
+	for _, b := range builders {
+		isBuilder[b] = true
+	}
+	var strParams []int
+	for i, p := range f.Params {
+		if isStringType(p.Type()) {
+			strParams = append(strParams, i)
+		}
+	}
+	if len(strParams) != 1 {
+		return false, "" // only single-parameter instantiation is attempted
+	}
+	pi := strParams[0]
+	seen := map[string]bool{}
+	var names []string
+	sites := 0
+	for _, g := range c.P.FuncsOfPkg(fnPkgPath(f)) {
+		var bad string
+		AllInstrs(g, func(instr ssa.Instruction) {
+			for _, op := range instr.Operands(nil) {
+				if op == nil || *op != ssa.Value(f) {
+					continue
+				}
+				call, isCall := instr.(ssa.CallInstruction)
+				if !isCall || call.Common().Value != ssa.Value(f) {
+					bad = "it is used as a value in " + FnName(g)
+					continue
+				}
+				if isBuilder[g] {
+					continue
+				}
+				sites++
+				var kinds []string
+				for _, r := range Roots(call.Common().Args[pi]) {
+					k, ok := constString(r)
+					if !ok {
+						bad = FnName(g) + " passes a non-constant " + f.Params[pi].Name()
+						continue
+					}
+					n := stTemplateWith(f, 0, map[*ssa.Parameter]stNode{f.Params[pi]: stLit(k)})
+					if unk := stUnknowns(n); len(unk) > 0 {
+						bad = "instantiation with " + k + " cannot be evaluated: " + strings.Join(unk, "; ")
+						continue
+					}
+					m := match(n.render())
+					if m == "" {
+						bad = FnName(g) + " instantiates it to " + n.render() + ", which is no endpoint"
+						continue
+					}
+					kinds = append(kinds, m)
+					if !seen[m] {
+						seen[m] = true
+						names = append(names, m)
+						produced[m] = append(produced[m], FnName(f))
+					}
+				}
+				classAt[call] = kinds
+			}
+		})
+		if bad != "" {
+			return false, bad
+		}
+	}
+	if sites == 0 {
+		return false, ""
+	}
+	sort.Strings(names)
+	return true, strings.Join(names, "; ")
 }
 
 // c20OnlyUsedBy: every use of f in its package is a static call from one of
